@@ -165,3 +165,86 @@ PROPS["C07"] = {
                 "Rust drop semantics: dropping the handle runs Drop::drop once (sync)"],
     "assumptions": ["file size below 2^63", "Vec<u8> as io::Write appends", "drop runs at scope end (assumed runtime rule)"],
 }
+
+
+# ---------------------------------------------------------------------------------------------
+def subsets(letters):
+    import itertools
+    out = []
+    for r in range(1, len(letters) + 1):
+        for t in itertools.combinations(letters, r):
+            out.append("".join(t))
+    return out
+
+
+def c11_clauses():
+    return [t + ":" + w + o + p for t in "dfa" for w in subsets("ugo") for o in "-+=" for p in subsets("rwx")]
+
+
+def c11_streams(tier, rng, ctx):
+    singles = c11_clauses()
+    kinds = ["f", "d", "lf", "ld"]
+    modes_all = list(range(512))
+    sts = []
+
+    def ln(kind, mode, octal, sym):
+        tb = {"f": 0o100000, "d": 0o40000, "lf": 0o120000, "ld": 0o120000}[kind]
+        return "\t".join(["sym_mode", kind, str(tb | mode), str(octal), hx(sym)])
+    l1 = [ln(k, m, 0, s) for s in singles for k in kinds[:3] for m in (modes_all if tier != "quick" else modes_all[::3])]
+    sts.append(Stream("sym-single", "mirror", l1, judge=lambda l, o: True, exhaustive=True,
+                      nontrivial=lambda l, o: o != "N:" + l.split("\t")[2],
+                      rule="all 441 canonical single clauses x permission values x {file, dir, link}"))
+    npairs = 150000 if tier == "quick" else 2000000
+    pm = [0, 0o777, 0o644, 0o755, 0o400, 0o070, 0o007, 0o111, 0o222, 0o444, 0o600, 0o750, 0o123, 0o456, 0o321, 0o654]
+    l2 = []
+    for _ in range(npairs):
+        a, b = rng.choice(singles), rng.choice(singles)
+        l2.append(ln(rng.choice(kinds), rng.choice(pm), 0, a + "," + b))
+    sts.append(Stream("sym-pairs", "mirror", l2, judge=lambda l, o: True,
+                      nontrivial=lambda l, o: o != "N:" + l.split("\t")[2],
+                      rule="random ordered pairs of canonical clauses x 16 permission values x kinds"))
+    # spelling variants and longer expressions
+    l3 = []
+    for _ in range(20000 if tier == "quick" else 200000):
+        n = rng.randint(1, 4)
+        cls = []
+        for _ in range(n):
+            t = "".join(rng.choice("dfa") for _ in range(rng.randint(0, 2)))
+            w = "".join(rng.choice("ugoa") for _ in range(rng.randint(1, 4)))
+            p = "".join(rng.choice("rwx") for _ in range(rng.randint(1, 4)))
+            cls.append(t + ":" + w + rng.choice("-+=") + p)
+        l3.append(ln(rng.choice(kinds), rng.choice(modes_all), 0, ",".join(cls)))
+    sts.append(Stream("sym-variants", "mirror", l3, judge=lambda l, o: True,
+                      rule="1-4 clauses with repeated / multiple target, who and permission letters ('a' vs 'ugo', 'df:', ':')"))
+    # octal priority and the empty expression
+    l4 = [ln(k, m, o, s) for k in kinds for m in [0o644, 0o755] for o in [0, 0o600, 0o777, 0o1777, 1] for s in ["", "f:a+x", "zz", "d:g-w,f:o=r"]]
+    sts.append(Stream("sym-octal", "mirror", l4, judge=lambda l, o: True, rule="octal priority / empty expression"))
+    # malformed: every single-character deletion, insertion and substitution of well-formed expressions
+    base = rng.sample(singles, 60 if tier == "quick" else 441) + ["d:a+x,f:a-w", "a:go-rwx", "f:a+r,f:a-wx"]
+    alphabet = "dfa:ugo-+=rwx,z "
+    mal = set()
+    for s in base:
+        for i in range(len(s)):
+            mal.add(s[:i] + s[i + 1:])
+            for c in alphabet:
+                mal.add(s[:i] + c + s[i + 1:])
+        for i in range(len(s) + 1):
+            for c in alphabet:
+                mal.add(s[:i] + c + s[i:])
+    mal = sorted(mal)
+    l5 = [ln(k, 0o644, 0, s) for s in mal for k in ["f", "d", "lf"]]
+    sts.append(Stream("sym-malformed", "mirror", l5, judge=lambda l, o: o.startswith("N:"),
+                      nontrivial=lambda l, o: o.startswith("E:"),
+                      rule="every single-character deletion / insertion / substitution of well-formed expressions"))
+    l6 = ["\t".join(["revoking_mode", str(a), str(b)]) for a in range(0, 512, 5) for b in range(0, 512, 7)]
+    sts.append(Stream("revoking-mode", "mirror", l6))
+    return sts
+
+
+PROPS["C11"] = {
+    "streams": c11_streams,
+    "rule": "all canonical single clauses x permission values x entry kinds (exhaustive), sampled ordered pairs, spelling variants with up to four clauses, "
+            "and all single-character edits of well-formed expressions; through the cfg(rivia_verif) re-export of the crate-private sys::mode; distinct = distinct (kind, mode, octal, expression)",
+    "trusted": ["hook sys::verif::{sym_mode, memfs_entry} (re-exports, add-only)"],
+    "assumptions": ["u32 bit operations as N bit operations (values below 2^32)"],
+}
